@@ -39,6 +39,12 @@ def generate(seed, tier, enlarged=False):
     from harness import live
     cases += [live.gen_case(rng) for _ in range(n // 6)]
     cases += live.corpus()
+    # port listing order: several scalar ports of one process wired to ONE variable (at the root of the hierarchy,
+    # below it, or reached through '..' from a nested process), listed in every order - oracle only
+    for i in range(max(6, n // 40)):
+        k = rng.randint(2, 3)
+        cases.append({'kind': 'ports', 'amounts': [rng.randint(1, 9) for _ in range(k)],
+                      'where': rng.choice(['root', 'root', 'deep', 'nested']), 'ticks': rng.randint(1, 3)})
     return cases
 
 
@@ -81,10 +87,65 @@ def run(cases, tier='quick', seed=0):
                               live.oracle_rels(c, ob, rng))
         nontrivial, stat_key = staticmethod(live.nontrivial), staticmethod(live.stat_key)
         render = staticmethod(live.render)     # the rebuild points of _send_updates / run_steps vs Model/Views.v
+    class Ports:
+        __name__ = 'harness.c04ports'
+        IMPORTS, CHECK_FN, BAD_TERM = live.IMPORTS, live.CHECK_FN, live.BAD_TERM
+        run_impl, oracle = staticmethod(run_ports), staticmethod(oracle_ports)
+        nontrivial = staticmethod(lambda c, ob: True)
+        stat_key = staticmethod(lambda c, ob: 'ports/' + c['where'])
+        render = staticmethod(lambda c, ob: None)
     return common.merge_streams(cases, [
+        (lambda c: c['kind'] == 'ports', lambda cs: common.generic_run(Ports, cs, seed, shard=100)),
         (lambda c: c['kind'] == 'sched', lambda cs: run_sched(cs, tier, seed)),
         (lambda c: c['kind'] == 'engine', lambda cs: common.generic_run(Layer, cs, seed, shard=200)),
         (lambda c: c['kind'] == 'live', lambda cs: common.generic_run(Live, cs, seed, shard=20))])
+
+
+def run_ports(c):
+    import contextlib
+    import io
+    import itertools
+    from vivarium.core.engine import Engine
+    from vivarium.core.process import Process
+    names = ['p%d' % i for i in range(len(c['amounts']))]
+    amounts = dict(zip(names, c['amounts']))
+
+    class Teller(Process):
+        defaults = {'order': names}
+
+        def ports_schema(self):
+            # every port IS a variable (a scalar port)
+            return {n: {'_default': 0, '_emit': True} for n in self.parameters['order']}
+
+        def next_update(self, ts, states):
+            return {n: amounts[n] for n in self.parameters['order']}
+    target = {'root': ('pool',), 'deep': ('bank', 'pool'), 'nested': ('..', '..', 'pool')}[c['where']]
+    out = {}
+    for order in itertools.permutations(names):
+        t = {n: target for n in order}
+        if c['where'] == 'nested':
+            procs, topo = {'cell': {'inner': {'teller': Teller({'order': list(order)})}}}, {'cell': {'inner': {'teller': t}}}
+        else:
+            procs, topo = {'teller': Teller({'order': list(order)})}, {'teller': t}
+        try:
+            with contextlib.redirect_stdout(io.StringIO()):
+                eng = Engine(processes=procs, topology=topo, emitter='timeseries', display_info=False)
+                eng.update(c['ticks'])
+                v = eng.state.get_value()
+            out['/'.join(order)] = v['bank']['pool'] if c['where'] == 'deep' else v['pool']
+        except Exception as e:
+            out['/'.join(order)] = 'raised %s: %s' % (type(e).__name__, str(e)[:100])
+    return {'finals': out}
+
+
+def oracle_ports(c, ob, rng):
+    want = sum(c['amounts']) * c['ticks']
+    bad = {k: v for k, v in ob['finals'].items() if v != want}
+    if bad:
+        return [('scalar ports wired to one variable (%s): after %d tick(s) of updates %r the variable must hold %d '
+                 'whatever the order in which the ports are listed; got %r' % (c['where'], c['ticks'], c['amounts'], want, bad),
+                 'order-dependent-trajectory')]
+    return []
 
 
 def run_sched(cases, tier='quick', seed=0):
